@@ -118,4 +118,26 @@ C16)
 *)
   ;;
 esac
+# thorough tier: audit the executable assumed contracts on pure library functions against the real functions
+if [ "$TIER" = "thorough" ]; then
+  if run_test "$REPO" "$V/standins/audit_test.go" TestGovcAudit "$S/audit.json"; then
+    python3 - "$S/audit.json" "$OUT" <<'PY'
+import json,sys,os
+r=json.load(open(sys.argv[1])); out=sys.argv[2]
+extra={}
+if os.path.exists(out):
+    try: extra=json.load(open(out))
+    except Exception: extra={}
+extra["assumption_audit"]={"name":"assumed contracts of pure library functions vs the real functions","bounded":True,
+  "bound":"all strings of length <= 4 (<= 3 for pairs) over {'/', '.', 'a', '-', '*', 0x01, 0xff}; selected integers; all predicates over n <= 6 for sort.Search",
+  "evaluations":r["evaluations"],"failures":r["audit_failures"]}
+json.dump(extra,open(out,"w"),indent=1)
+if r["audit_failures"]:
+    print("BROKEN-CHECK assumption audit failed:", r["failures"][:3]); sys.exit(2)
+PY
+    arc=$?; [ $arc -ne 0 ] && [ $rc -eq 0 ] && rc=$arc
+  else
+    echo "BROKEN-CHECK assumption audit did not run"; [ $rc -eq 0 ] && rc=2
+  fi
+fi
 exit $rc
